@@ -641,6 +641,34 @@ def run_reinterpret(ctx, stats):
                                                                                             op="reinterpret-dynamic"))
 
 
+    # a target vocabulary that holds no keys yet (a falsy Mapping) is still THE vocabulary of the result
+    for aname, A in ALG.items():
+        empty = spa.Vocabulary(4, algebra=A)
+        src = vocs[(4, "hrr")]
+        for kind in ("pointer", "bare-pointer", "symbol", "state", "untyped-dim", "state-method"):
+            case = {"op": "reinterpret-into-empty-vocabulary", "operand": kind, "algebra": aname}
+            ctx.count(f"ree {kind} {aname}", nontrivial=True, branch="reinterpret-empty-target")
+            try:
+                with spa.Network():
+                    obj = {"pointer": lambda: src["A"], "bare-pointer": lambda: spa.SemanticPointer(axis(4, 1)),
+                           "symbol": lambda: PointerSymbol("A", TVocabulary(src)),
+                           "state": lambda: spa.State(src, subdimensions=1),
+                           "state-method": lambda: spa.State(src, subdimensions=1),
+                           "untyped-dim": lambda: spa.reinterpret(spa.State(src, subdimensions=1))}[kind]()
+                    q = obj.reinterpret(empty) if kind == "state-method" else spa.reinterpret(obj, empty)
+                    if kind in ("pointer", "bare-pointer", "symbol"):
+                        ok = q.vocab is empty and q.algebra is A and isinstance(q.type, TVocabulary) and q.type.vocab is empty
+                        obs = [repr(q.vocab), repr(q.type)]
+                    else:
+                        ok = isinstance(q.type, TVocabulary) and q.type.vocab is empty
+                        obs = repr(q.type)
+            except Exception as ex:  # noqa: BLE001
+                ok, obs = False, f"{type(ex).__name__}: {ex}"[:100]
+            if not ok:
+                ctx.fail(case, obs, "a result that belongs to the given (still empty) vocabulary", where="reinterpret-empty-target")
+    assert len(empty) == 0
+
+
 # --------------------------------------------------------------------------
 # create_subset
 # --------------------------------------------------------------------------
